@@ -48,7 +48,8 @@ def _classes():
 
 
 def frac(x):
-    return Fraction(float(x))
+    """exact rational value (a Fraction is kept as it is: converting it to float first would round)"""
+    return x if isinstance(x, Fraction) else Fraction(float(x))
 
 
 def qpair(x):
@@ -346,7 +347,83 @@ def fr_list(a):
     return [frac(x) for x in np.asarray(a, dtype=float)]
 
 
-def oracle(impl, op, before, outc, fnspecs={}):
+class Sem:
+    """What every live object IS according to the property text, tracked by the harness independently of the
+    classes the implementation returns: 'sampled' (stored values, re-gridded by interpolation), 'empty' (zero,
+    neutral in sums) or 'fun' (function-backed: a list of components [function spec, offset, factor], re-gridded
+    by exact re-evaluation).  Rules: constructors fix the kind; copies, re-gridded and scaled signals keep it;
+    the empty signal is neutral in a sum (empty + x and x + empty are x); fun + fun is fun with both component
+    lists; a sum with a sampled signal is sampled (FunctionSignal.__add__ documents that it is evaluated)."""
+
+    def __init__(self):
+        self.s = []
+
+    def snapshot(self):
+        return [dict(e, comps=[list(c) for c in e.get("comps", [])]) for e in self.s]
+
+    @staticmethod
+    def clone(e):
+        return dict(e, comps=[list(c) for c in e.get("comps", [])])
+
+    def update(self, op, outc):
+        k = op["op"]
+        S = self.s
+        q = Fraction(*op["q"]) if "q" in op else None
+        i = op.get("i")
+        if outc[0] == 0:                        # a new object
+            if outc[1] != len(S):
+                S += [{"k": "unknown"}] * (outc[1] - len(S))
+            if k == "mk":
+                e = {"k": ["sampled", "empty", "fun"][op["cls"]]}
+                if op["cls"] == 2:
+                    e["comps"] = [[tuple(op["fn"]), Fraction(0), Fraction(1)]]
+            elif k in ("copy", "with_times"):
+                e = self.clone(S[i])
+            elif k == "add":
+                a, b = S[op["i"]], S[op["j"]]
+                if a["k"] == "empty":
+                    e = self.clone(b)
+                elif b["k"] == "empty":
+                    e = self.clone(a)
+                elif a["k"] == "fun" and b["k"] == "fun":
+                    e = {"k": "fun", "comps": [list(c) for c in a["comps"]] + [list(c) for c in b["comps"]]}
+                elif "unknown" in (a["k"], b["k"]):
+                    e = {"k": "unknown"}
+                else:
+                    e = {"k": "sampled"}
+            elif k in ("mul", "rmul", "div"):
+                e = self.clone(S[i])
+                if e["k"] == "fun":
+                    for c in e["comps"]:
+                        c[2] = c[2] * q if k != "div" else c[2] / q
+                elif e["k"] == "empty":
+                    e = {"k": "sampled"}           # zeros, stored
+            else:
+                e = {"k": "unknown"}
+            S.append(e)
+        elif k in ("imul", "idiv") and outc[0] == 1 and S[i]["k"] == "fun":
+            for c in S[i]["comps"]:
+                c[2] = c[2] * q if k == "imul" else c[2] / q
+        elif k in ("imul", "idiv") and outc[0] == 0:
+            pass
+        elif k == "shift" and outc[0] == 2 and S[i]["k"] == "fun":
+            for c in S[i]["comps"]:
+                c[1] = c[1] + q
+
+
+def fun_exact(comps, xs):
+    out = []
+    for x in xs:
+        tot = Fraction(0)
+        for f, t0, fac in comps:
+            u = x - t0
+            g = u if f[0] == "affine" else (u * u if f[0] == "quad" else abs(u - Fraction(*f[3])))
+            tot += (Fraction(*f[1]) * g + Fraction(*f[2])) * fac
+        out.append(tot)
+    return out
+
+
+def oracle(impl, op, before, outc, fnspecs={}, sem_before=None, sem_after=None):
     """Judge one executed step against the property text, independently of the Coq model.
     before: dict with snapshots taken before the op.  Returns list of complaint strings."""
     bad = []
@@ -362,28 +439,21 @@ def oracle(impl, op, before, outc, fnspecs={}):
             if impl.cls_of(o)[0] != 2 or len(o.times) >= 2:
                 bad.append("object %d: values cannot be read (%s)" % (i, type(e).__name__))
     # a function-backed signal holds, at every sample, the sum over its components of factor * f(t - t0)
-    # (whatever its buffers are, as long as no filter is set): exact on the generated data
+    # (whatever its buffers are, as long as no filter is set): exact on the generated data.  Which objects are
+    # function-backed is decided by the property (Sem), not by the class the implementation happened to return
     for i, o in enumerate(O):
-        if impl.cls_of(o)[0] != 2 or len(o.times) < 2 or not isinstance(o.times, np.ndarray):
+        e = sem_after[i] if sem_after is not None and i < len(sem_after) else None
+        if e is None or e["k"] != "fun" or len(o.times) < 2 or not isinstance(o.times, np.ndarray):
             continue
         try:
-            specs = [(fnspecs.get(id(f)), frac(t0), frac(fac)) for f, t0, fac in zip(o._functions, o._t0s, o._factors)]
-            if any(sp is None for sp, _, _ in specs) or any(len(g) for g in o._filters):
-                continue
             got = fr_list(o.values)
         except Exception:
             continue
-        want = []
-        for x in fr_list(o.times):
-            tot = Fraction(0)
-            for f, t0, fac in specs:
-                u = x - t0
-                g = u if f[0] == "affine" else (u * u if f[0] == "quad" else abs(u - Fraction(*f[3])))
-                tot += (Fraction(*f[1]) * g + Fraction(*f[2])) * fac
-            want.append(tot)
+        want = fun_exact(e["comps"], fr_list(o.times))
         if got != want:
-            bad.append("function-backed object %d does not hold its function's values at its own sample times "
-                       "(first difference at sample %d)" % (i, [a != b for a, b in zip(got, want)].index(True) if len(got) == len(want) else -1))
+            bad.append("function-backed object %d (%s) does not hold its function's values at its own sample times "
+                       "(first difference at sample %d)" % (i, type(o).__name__,
+                                                             [a != b for a, b in zip(got, want)].index(True) if len(got) == len(want) else -1))
     k = op["op"]
     new = O[outc[1]] if outc[0] == 0 else None
     # results share no mutable state with operands or arguments
@@ -457,6 +527,8 @@ def oracle(impl, op, before, outc, fnspecs={}):
         i = op["i"]
         nt = before["ext"][op["ta"]]
         c = before["cls"][i]
+        if sem_before is not None and i < len(sem_before) and sem_before[i]["k"] in ("sampled", "empty", "fun"):
+            c = {"sampled": 0, "empty": 1, "fun": 2}[sem_before[i]["k"]]
         if fr_list(new.times) != nt:
             bad.append("re-gridded signal not on the requested grid")
         if c == 0 and before["strict"][i]:
@@ -466,11 +538,12 @@ def oracle(impl, op, before, outc, fnspecs={}):
         if c == 1 and any(v != 0 for v in fr_list(new.values)):
             bad.append("re-gridded empty signal is not zero")
         if c == 2:
-            fns = before["fns"][i]
-            want = [sum((Fraction(*f[1]) * ((x - t0) if f[0] == "affine" else (x - t0) ** 2 if f[0] == "quad" else abs(x - t0 - Fraction(*f[3]))) + Fraction(*f[2])) * fac
-                        for f, t0, fac in fns) for x in nt]
+            comps = sem_before[i]["comps"] if sem_before is not None and sem_before[i]["k"] == "fun" else \
+                [[f, t0, fac] for f, t0, fac in before["fns"][i]]
+            want = fun_exact(comps, nt)
             if len(nt) >= 2 and fr_list(new.values) != want:
-                bad.append("re-gridded function signal does not re-evaluate its function exactly")
+                bad.append("re-gridded function-backed signal (%s) does not re-evaluate its function exactly"
+                           % before["clsname"][i])
     return bad
 
 
@@ -704,8 +777,14 @@ class Gen:
         i = r.randrange(len(O))
         o = O[i]
         kinds = ["copy", "add", "add", "add", "radd", "mul", "rmul", "imul", "div", "idiv", "with_times", "with_times",
-                 "shift", "settype", "setbuf", "pokearr", "poketimes", "pokevals", "addmatch", "addmatch", "addnear", "addnear"]
+                 "shift", "settype", "setbuf", "pokearr", "poketimes", "pokevals", "addmatch", "addmatch", "addnear", "addnear",
+                 "emptyacc", "emptyacc"]
         k = r.choice(kinds)
+        pend = getattr(self, "pending", None)
+        if pend is not None and pend < len(O) and r.random() < 0.6:
+            # a sum was just formed: re-grid it (mostly onto grids that are not contained in its own span)
+            i, o, k = pend, O[pend], "with_times"
+        self.pending = None
         if self.bias == "decimal" and r.random() < 0.5:
             fd = [j for j, p in enumerate(O) if self.is_dec(p)]
             if fd:
@@ -754,11 +833,29 @@ class Gen:
         if k == "add":
             j = r.randrange(len(O))
             return None if inexact_sum(o, O[j]) else {"op": "add", "i": i, "j": j}
+        if k == "emptyacc":
+            # an EmptySignal accumulator on the grid of an existing signal (`sum([EmptySignal(t), f, ...])`,
+            # `w = EmptySignal(t); w += f`): create it, the additions follow through addmatch
+            src = [p for p in O if isinstance(p.times, np.ndarray) and len(p.times)]
+            funs = [p for p in src if self.is_fun(p)]
+            p_ = r.choice(funs if funs and r.random() < 0.7 else src) if src else None
+            if p_ is None:
+                return None
+            match = [a for a in range(len(E)) if len(E[a]) == len(p_.times) and np.array_equal(E[a], p_.times)]
+            if not match:
+                return {"op": "newarr", "xs": [q_of(frac(x)) for x in p_.times]}
+            return {"op": "mk", "cls": 1, "sub": r.random() < 0.2, "ta": r.choice(match), "va": 0, "vt": r.choice([0, 0, p_.value_type.value]),
+                    "vtform": "enum", "fn": ["affine", q_of(1), q_of(0), q_of(0)]}
         if k == "addmatch":
             # prefer a partner on the same grid so that additions are mostly accepted
             same = [j for j, p in enumerate(O) if len(p.times) == len(o.times) and np.array_equal(p.times, o.times)
                     and not inexact_sum(o, p)]
-            return {"op": "add", "i": i, "j": r.choice(same)} if same else None
+            if not same:
+                return None
+            empties = [j for j in same if I.cls_of(O[j])[0] == 1]
+            j = r.choice(empties) if empties and r.random() < 0.45 else r.choice(same)
+            # both operand orders: accumulator first (sum / +=) and accumulator last
+            return {"op": "add", "i": j, "j": i} if r.random() < 0.5 else {"op": "add", "i": i, "j": j}
         if k == "addnear":
             # a partner whose grid differs minutely: must be refused, in either operand order
             nearj = [j for j, p in enumerate(O) if self.near(p.times, o.times)]
@@ -960,7 +1057,8 @@ def model_trace(parsed):
 # ------------------------------------------------------------------ running one history
 def snapshot(impl, gen):
     O = impl.objs
-    snap = {"times": [], "values": [], "vt": [], "cls": [], "strict": [], "fns": [], "bufs": [], "ext": [fr_list(a) for a in impl.ext]}
+    snap = {"times": [], "values": [], "vt": [], "cls": [], "clsname": [type(o).__name__ for o in impl.objs], "strict": [], "fns": [],
+            "bufs": [], "ext": [fr_list(a) for a in impl.ext]}
     for i, o in enumerate(O):
         t = fr_list(o.times) if isinstance(o.times, np.ndarray) else None
         snap["times"].append(t)
@@ -985,6 +1083,8 @@ def execute(ops_or_gen, rng=None, max_ops=30, malformed=False, fixed_ops=None, b
     impl = Impl()
     gen = Gen(rng, impl, max_ops, malformed, bias) if fixed_ops is None else Gen(None, impl, 0)
     ops, steps, complaints = [], [], []
+    sem = Sem()
+    gen.sem = sem
     tries = 0
     while (len(ops) < max_ops if fixed_ops is None else len(ops) < len(fixed_ops)):
         if fixed_ops is None:
@@ -1001,17 +1101,26 @@ def execute(ops_or_gen, rng=None, max_ops=30, malformed=False, fixed_ops=None, b
             op = fixed_ops[len(ops)]
         before = snapshot(impl, gen)
         # remember which python function object belongs to which spec (for the oracle)
-        outc = impl.step(op)
+        if op["op"] == "poketimes" and 0 <= op["i"] < len(sem.s) and sem.s[op["i"]]["k"] == "fun":
+            outc = (4, 0)      # writing into the times array is not a public operation on a function-backed signal
+        elif op["op"] == "pokevals" and 0 <= op["i"] < len(sem.s) and sem.s[op["i"]]["k"] in ("fun", "empty"):
+            outc = (4, 0)      # nor is writing into the values of a function-backed or empty signal
+        else:
+            outc = impl.step(op)
         if op["op"] == "mk" and op["cls"] == 2 and outc[0] == 0:
             f = impl.objs[outc[1]]._functions[0]
             gen.fns[id(f)] = tuple(op["fn"])
             gen.keep = getattr(gen, "keep", []) + [f]
         ops.append(op)
+        if op["op"] == "add" and outc[0] == 0:
+            gen.pending = outc[1]
         obs = impl.observe()
         steps.append((outc, obs))
         try:
+            sem_before = sem.snapshot()
+            sem.update(op, outc)
             if all(all(f[0] is not None for f in fl) for fl in before["fns"] if fl):
-                for c in oracle(impl, op, before, outc, gen.fns):
+                for c in oracle(impl, op, before, outc, gen.fns, sem_before, sem.s):
                     complaints.append((len(ops) - 1, c))
         except Exception as e:   # an oracle crash must not hide a model comparison
             complaints.append((len(ops) - 1, "oracle raised %s: %s" % (type(e).__name__, e)))
@@ -1087,6 +1196,10 @@ def exhaustive_pairs():
                {"op": "mk", "cls": c2, "sub": s2, "ta": 0, "va": 0, "vt": v2, "fn": fn2, "vtform": "str"},
                {"op": "add", "i": 0, "j": 1},
                {"op": "add", "i": 1, "j": 0},
+               # both sums re-gridded onto a grid that is wider and finer than their own
+               {"op": "newarr", "xs": [[-1, 2], [0, 1], [1, 4], [1, 2], [1, 1], [5, 4], [3, 2], [2, 1]]},
+               {"op": "with_times", "i": 2, "ta": 2},
+               {"op": "with_times", "i": 3, "ta": 2},
                {"op": "poketimes", "i": 2, "k": 3, "q": [9, 1]},
                {"op": "pokearr", "a": 0, "k": 2, "q": [5, 4]},
                {"op": "pokevals", "i": 2, "k": 0, "q": [7, 1]},
@@ -1190,7 +1303,7 @@ def run(ctx):
     ctx.oblige("corr:minutely-different-grids-refused", n_refused == 2 * len(near),
                "%d of %d sums over minutely different grids were refused" % (n_refused, 2 * len(near)))
     ctx.extra["near_equal_grid_pairs"] = {"histories": len(near), "refused_sums": n_refused, "expected_refused": 2 * len(near)}
-    n_rand = ctx.n(120, 4000)
+    n_rand = ctx.n(100, 4000)
     for n in range(n_rand):
         biased = (n % 4 == 1)
         o, st, comp = execute(None, rng=rng, max_ops=rng.choice([10, 18] if biased else [8, 15, 30, 30]), malformed=(n % 6 == 5),
@@ -1216,8 +1329,10 @@ def run(ctx):
         ctx.case(key=tuple((o_["op"], o_.get("cls"), o_.get("vt")) for o_ in ops), nontrivial=len(ops) > 3,
                  sample={"tag": tag, "ops": ops[:12]} if n % 97 == 0 else None)
         d = compact_diff(steps, traces[n]) if traces is not None else None
-        if (complaints or d is not None) and len(ctx.failures) >= 4:
-            # enough witnesses recorded: only count the rest (keeps a failing run within the time budget)
+        n_wit = sum(1 for f_ in ctx.failures if f_["witness"])
+        n_nowit = len(ctx.failures) - n_wit
+        if (complaints and n_wit >= 4) or (not complaints and d is not None and n_nowit >= 2):
+            # enough recorded (room is kept for failures with a witness): only count the rest
             disagreements += 1 if d is not None else 0
             continue
         if d is not None and len(ctx.failures) < 2:
